@@ -2589,6 +2589,50 @@ fn write_array_data(
             write_options,
         )?;
         return Ok(offset);
+    } else if let DataType::Union(_, mode) = data_type {
+        // A union below a sliced list / map / struct carries an `ArrayData` offset: write the
+        // type ids (and dense offsets) of the addressed window only, and slice sparse children.
+        let (data_offset, len) = (array_data.offset(), array_data.len());
+        let type_ids = array_data.buffers()[0].slice_with_length(data_offset, len);
+        offset = encode_sink_buffer(
+            type_ids,
+            meta,
+            sink,
+            offset,
+            compression_codec,
+            ipc_write_context,
+            write_options.alignment,
+        )?;
+        if *mode == UnionMode::Dense {
+            let width = std::mem::size_of::<i32>();
+            let offsets =
+                array_data.buffers()[1].slice_with_length(data_offset * width, len * width);
+            offset = encode_sink_buffer(
+                offsets,
+                meta,
+                sink,
+                offset,
+                compression_codec,
+                ipc_write_context,
+                write_options.alignment,
+            )?;
+        }
+        for child in array_data.child_data() {
+            let child = match mode {
+                UnionMode::Sparse => child.slice(data_offset, len),
+                UnionMode::Dense => child.clone(),
+            };
+            offset = write_array_data(
+                &child,
+                meta,
+                sink,
+                offset,
+                compression_codec,
+                ipc_write_context,
+                write_options,
+            )?;
+        }
+        return Ok(offset);
     } else {
         for buffer in array_data.buffers() {
             offset = encode_sink_buffer(
